@@ -25,8 +25,9 @@ shape by general, semantics-preserving rules (nothing here looks at the text of 
              becomes `if c': x = e2' else: x = e1` with x replaced by e1 in c and e2
   temp       `x = E` directly followed by `return x` / `t = x` (x not used again) becomes `return E` / `t = E`; a call-free
              E used once in the directly following simple, call-free statement is substituted there
-  alias      a local bound exactly once, at the top level of the function, to a name, a constant or an attribute chain is
-             replaced by that expression at every later use that no intervening statement can have made stale (a store to
+  alias      a local bound exactly once, at the top level of the function, to a name, a constant, an attribute chain or an
+             arithmetic / comparison expression over names and constants (then only if the local is never mutated or handed
+             to a call) is replaced by that expression at every later use that no intervening statement can have made stale (a store to
              any part of the chain or to one of its names, or - for attribute chains - any call that is not a known pure
              function, kills the alias: the remaining uses keep the local's name and the extraction fails closed on them);
              the assignment is dropped when no use is left
@@ -116,7 +117,17 @@ def _terminal(block: list) -> bool:
         return True
     if isinstance(last, ast.If) and last.orelse:
         return _terminal(last.body) and _terminal(last.orelse)
+    if isinstance(last, ast.Try) and not last.finalbody and not last.orelse:
+        return _terminal(last.body) and all(_terminal(h.body) for h in last.handlers)
     return False
+
+
+def _reraising_try(st: ast.stmt) -> bool:
+    """try: ... except ...: <ends in raise> (no else / finally): a `return e` at the end of the try body is the same as
+    binding e there and returning after the statement, when nothing follows"""
+    return (isinstance(st, ast.Try) and not st.finalbody and not st.orelse and st.handlers
+            and all(h.body and isinstance(h.body[-1], ast.Raise) for h in st.handlers)
+            and not any(isinstance(n, ast.Return) for h in st.handlers for b in h.body for n in ast.walk(b)))
 
 
 def _stored_names(node: ast.AST) -> set:
@@ -483,8 +494,14 @@ def _nest_returns(stmts: list):
                     return None
                 new = ast.copy_location(ast.If(test=st.test, body=body or [ast.Pass()], orelse=orelse), st)
                 return out + [new]
+        elif _reraising_try(st) and last and any(isinstance(n, ast.Return) for n in ast.walk(st)):
+            inner = _nest_returns(st.body)
+            if inner is None:
+                return None
+            st.body = inner
+            return out + [st]
         elif any(isinstance(n, ast.Return) for n in ast.walk(st)):
-            return None                      # a return inside a loop / try / with: not inlined
+            return None                      # a return inside a loop / with / other try: not inlined
         out.append(st)
     return out
 
@@ -501,6 +518,8 @@ def _tail_returns(stmts: list, make) -> list:
         last.orelse = _tail_returns(last.orelse, make)
         if not last.body:
             last.body = [ast.Pass()]
+    if _reraising_try(last):
+        last.body = _tail_returns(last.body, make) or [ast.Pass()]
     return stmts
 
 
@@ -658,11 +677,14 @@ def _resolve_imported_helpers(repo: Path, rel: str, tree: ast.Module) -> dict:
 
 # --------------------------------------------------------------------------------------------------- aliases
 
+def _pure_call(n: ast.Call) -> bool:
+    f = ast.unparse(n.func)
+    # known pure functions; building an exception object (`raise ValueError(...)`) touches nothing either
+    return f in PURE_CALLS or (isinstance(n.func, ast.Name) and f.endswith(("Error", "Exception", "Warning")))
+
+
 def _has_impure_call(node: ast.AST) -> bool:
-    for n in ast.walk(node):
-        if isinstance(n, ast.Call) and ast.unparse(n.func) not in PURE_CALLS:
-            return True
-    return False
+    return any(isinstance(n, ast.Call) and not _pure_call(n) for n in ast.walk(node))
 
 
 def _store_paths(node: ast.AST):
@@ -679,6 +701,29 @@ def _store_paths(node: ast.AST):
             else:
                 attr.append(n.target)
     return names, attr
+
+
+def _arith(node: ast.AST) -> bool:
+    """+ - * / comparisons, `and` / `or` / `not` over names and constants (no attribute read, no call, no subscript)"""
+    for n in ast.walk(node):
+        if not isinstance(n, (ast.BinOp, ast.UnaryOp, ast.Compare, ast.BoolOp, ast.Name, ast.Constant, ast.operator,
+                              ast.unaryop, ast.cmpop, ast.boolop, ast.expr_context)):
+            return False
+    return not isinstance(node, (ast.Name, ast.Constant))
+
+
+def _only_read_as_value(body: list, x: str) -> bool:
+    """x is never the root of a store / augmented target and never handed to code that could mutate it"""
+    for st in body:
+        for n in ast.walk(st):
+            if isinstance(n, (ast.Attribute, ast.Subscript)) and not isinstance(n.ctx, ast.Load) and _root(n) == x:
+                return False
+            if isinstance(n, ast.AugAssign) and _root(n.target) == x:
+                return False
+            if isinstance(n, ast.Call) and not _pure_call(n):
+                if any(_loads(a, x) for a in list(n.args) + [k.value for k in n.keywords]) or _root(n.func) == x:
+                    return False
+    return True
 
 
 def p_alias(fn: ast.FunctionDef):
@@ -703,8 +748,9 @@ def p_alias(fn: ast.FunctionDef):
             enames = {n.id for n in ast.walk(e) if isinstance(n, ast.Name)}
             if enames & names:
                 dead.add(x)
-            elif isinstance(e, ast.Attribute) and (attr or impure):
-                dead.add(x)
+            elif not isinstance(e, (ast.Name, ast.Constant)) and (attr or impure):
+                dead.add(x)       # attribute chains and arithmetic over (possibly mutable) values: any store into an
+                                  # object or any call of unknown code may change what the expression gives
         # 2. substitute: in a simple statement loads happen before the stores; in a compound one only the
         #    aliases that stay alive throughout are substituted
         usable = {x: e for x, e in active.items() if not (compound and x in dead)}
@@ -716,15 +762,15 @@ def p_alias(fn: ast.FunctionDef):
             else:
                 safe = dict(usable)
                 if impure:
-                    ncalls = sum(1 for n in ast.walk(st) if isinstance(n, ast.Call) and ast.unparse(n.func) not in PURE_CALLS)
+                    ncalls = sum(1 for n in ast.walk(st) if isinstance(n, ast.Call) and not _pure_call(n))
                     if ncalls > 1:
-                        safe = {x: e for x, e in usable.items() if not isinstance(e, ast.Attribute)}
+                        safe = {x: e for x, e in usable.items() if isinstance(e, (ast.Name, ast.Constant))}
                 _Subst(safe).visit(st)
         for x in dead:
             active.pop(x, None)
         # 3. does it define a new alias?
         if isinstance(st, ast.Assign) and len(st.targets) == 1 and isinstance(st.targets[0], ast.Name) \
-                and _simple(st.value):
+                and (_simple(st.value) or (_arith(st.value) and _only_read_as_value(body, st.targets[0].id))):
             x = st.targets[0].id
             if store_count.get(x) == 1 and x not in params and not _loads(st.value, x):
                 active[x] = st.value
